@@ -542,6 +542,13 @@ def drop(prog, rep):
             kept = proj[4]
             ok = False
             why = f"output {k} must be the {k}-th component of the triples that passed the size test"
+            if kept == zt:
+                # the projection read as one comprehension over the zipped inputs (a comprehension over the kept triples is that)
+                i = ("idx", proj[3], "zip")
+                conds = proj[5] if isinstance(proj[5], tuple) else ()
+                ok = proj[2] == ("sub", ("param", formals[k]), i) and len(conds) == 1 and _size_test(conds[0], ("sub", ("param", formals[0]), i))
+                if not ok:
+                    why = f"an interval is kept iff np.sum(mask) >= self.min_n_points (of the same interval) and output {k} takes input {k} of that interval; found {show(proj)[:160]}"
             if kept[0] == "comp" and kept[4] == zt and kept[2][0] == "tuple" and len(kept[2][1]) == 3:
                 i = ("idx", kept[3], "zip")
                 trip_ok = kept[2][1] == tuple(("sub", ("param", f), i) for f in formals)
